@@ -88,11 +88,83 @@ def run(ctx, rep):
     cells += table_selfdestruct(fx, rep, si, specs)
     cells += table_call(fx, rep, si, specs)
     cells += table_exp_extcodecopy(fx, rep, si, specs)
+    check_log2floor(fx, rep)
     rep.floor('decision-table-cells', cells, 21 * (2 + 64 * 4 + 64 + 8 + 24 + 3))
     check_linear(fx, rep, si, specs)
     check_overflow_discipline(fx, rep)
     rep.assume('operands of the storage predicates are compared only through the six SStoreResult predicates (checked in R2-predicates), so the 64 value triples over {0,1,2,3} cover every equality pattern')
     rep.assume('a saturated memory/copy cost exceeds any u64 gas limit, hence is reported as out of gas')
+
+
+def run_exp(ctx, rep):
+    """the EXP part alone (C03 includes it: the gas EXP charges is exp_cost)"""
+    fx = ctx.facts('default')
+    si = SpecInfo(fx)
+    if not si.ok:
+        for p in si.problems:
+            rep.undecided('spec-map', 'extract', p)
+        return
+    specs = [s for s in REF_ORDER if s in si.discr]
+    table_exp_extcodecopy(fx, rep, si, specs, only_exp=True)
+    check_log2floor(fx, rep)
+
+
+def check_log2floor(fx, rep):
+    """R2b: log2floor(v) = floor(log2 v) for every non-zero v.  The loop over the four limbs has a
+    constant counter and unrolls completely; the result depends on v only through which limb is the
+    highest non-zero one and its leading_zeros, so 4 x 64 cells cover every value."""
+    import c23
+    f = fx.fns.get(C + 'log2floor')
+    if f is None:
+        rep.undecided('R2-tables', 'log2floor', 'not found')
+        return
+    rep.fn(f)
+    try:
+        rs = Symx(fx, max_paths=2000, unroll=8).run(f)
+    except Budget:
+        rep.undecided('R2-tables', 'log2floor', 'path budget', f.where())
+        return
+    if any(r.cut for r in rs):
+        rep.undecided('R2-tables', 'log2floor', 'the limb loop does not unroll to a fixed number of iterations', f.where())
+        return
+    import re
+    bad = None
+    cells = 0
+    for j in range(4):
+        for lz in range(64):
+            limbs = [0, 0, 0, 0]
+            limbs[j] = 1 << (63 - lz)
+
+            def sym(txt, limbs=limbs):
+                m = re.search(r'\[(\d)\]$', txt)
+                return limbs[int(m.group(1))] if m and 'as_limbs' in txt else None
+
+            def lzf(sv, env):
+                v = c23.ev(sv[2][0], env)
+                return 64 - v.bit_length()
+            env = {'__sym__': sym, '__calls__': {'leading_zeros': lzf}}
+            got = set()
+            try:
+                for r in rs:
+                    ok = True
+                    for (sv, lit, _f, _b) in r.lits:
+                        v = c23.ev(sv, env)
+                        if (lit[0] == 'eq' and v != lit[1]) or (lit[0] == 'ne' and v in lit[1]):
+                            ok = False
+                            break
+                    if ok:
+                        got.add(c23.ev(r.ret, env))
+            except c23.NoValue as e:
+                rep.undecided('R2-tables', 'log2floor', 'not evaluable: %s' % e, f.where())
+                return
+            cells += 1
+            want = 64 * j + 63 - lz
+            if got != {want} and bad is None:
+                bad = 'highest non-zero limb %d with %d leading zeros gives %s, floor(log2) is %d' % (j, lz, sorted(got), want)
+    if bad:
+        rep.violation('R2-tables', 'log2floor', 'log2floor: ' + bad, f.where())
+    else:
+        rep.ok('R2-tables', 'log2floor', 'floor(log2 v) on %d cells (limb x leading zeros)' % cells)
 
 
 # ------------------------------------------------------------------------------------ R1
@@ -333,7 +405,7 @@ def table_call(fx, rep, si, specs):
     return cells
 
 
-def table_exp_extcodecopy(fx, rep, si, specs):
+def table_exp_extcodecopy(fx, rep, si, specs, only_exp=False):
     cells = 0
 
     def atoms(sv):
@@ -347,7 +419,7 @@ def table_exp_extcodecopy(fx, rep, si, specs):
     for s in specs:
         eff = si.effective(s)
         # EXTCODECOPY base
-        f, paths = paths_of(fx, 'extcodecopy_cost', [K(si.discr[eff]), None, None], rep)
+        f, paths = (None, None) if only_exp else paths_of(fx, 'extcodecopy_cost', [K(si.discr[eff]), None, None], rep)
         if paths is not None:
             for cold in (0, 1):
                 cells += 1
